@@ -1272,50 +1272,6 @@ Section Polls.
                  nth_error (set_node (S i) nx1 (set_node i nd1 ch)) j = nth_error ch j)).
     { intros nd1 nx1. split; [rewrite !length_set_node; reflexivity|].
       intros j Hj Hj2. rewrite !nth_set_node_other by congruence. reflexivity. }
-    assert (Run : forall (P : Prop),
-      (run_st (Server.h_st hr) = true ->
-       (if is_aborted (n_srv nd) hr then
-          let '(nd1, l0) := sstep nd (Server.OHandlerPoll k Server.SRun) in
-          let ch1 := set_node i nd1 ch in
-          let ch2 :=
-            match option_map hi_call (nth_error (n_hs nd) k), nth_error ch1 (S i) with
-            | Some (Some j), Some nx => set_node (S i) (fst (cstep nx (Client.DropCall j))) ch1
-            | _, _ => ch1
-            end in
-          (ch2, flat_map (tr_sobs i) l0)
-        else
-          let first := match Server.h_st hr with Server.HYielded => [KHStart i k] | _ => [] end in
-          match nth_error ch (S i) with
-          | Some nx =>
-            let '(nd1, nx1, st0) := inner_poll k nd nx in
-            let '(nd2, l0) := sstep nd1 (Server.OHandlerPoll k st0) in
-            (set_node (S i) nx1 (set_node i nd2 ch), first ++ flat_map (tr_sobs i) l0)
-          | None =>
-            let '(nd1, l0) := sstep nd (Server.OHandlerPoll k st) in
-            (set_node i nd1 ch, first ++ flat_map (tr_sobs i) l0)
-          end) = (ch', l) -> P) ->
-      (run_st (Server.h_st hr) = true ->
-       (if is_aborted (n_srv nd) hr then
-          let '(nd1, l0) := sstep nd (Server.OHandlerPoll k Server.SRun) in
-          let ch1 := set_node i nd1 ch in
-          let ch2 :=
-            match option_map hi_call (nth_error (n_hs nd) k), nth_error ch1 (S i) with
-            | Some (Some j), Some nx => set_node (S i) (fst (cstep nx (Client.DropCall j))) ch1
-            | _, _ => ch1
-            end in
-          (ch2, flat_map (tr_sobs i) l0)
-        else
-          let first := match Server.h_st hr with Server.HYielded => [KHStart i k] | _ => [] end in
-          match nth_error ch (S i) with
-          | Some nx =>
-            let '(nd1, nx1, st0) := inner_poll k nd nx in
-            let '(nd2, l0) := sstep nd1 (Server.OHandlerPoll k st0) in
-            (set_node (S i) nx1 (set_node i nd2 ch), first ++ flat_map (tr_sobs i) l0)
-          | None =>
-            let '(nd1, l0) := sstep nd (Server.OHandlerPoll k st) in
-            (set_node i nd1 ch, first ++ flat_map (tr_sobs i) l0)
-          end) = (ch', l)) -> P).
-    { intros P HP H. apply HP; assumption. }
     assert (Main : run_st (Server.h_st hr) = true ->
       (if is_aborted (n_srv nd) hr then
           let '(nd1, l0) := sstep nd (Server.OHandlerPoll k Server.SRun) in
@@ -1339,7 +1295,7 @@ Section Polls.
           end) = (ch', l) ->
       good (fold_left mon_obs l m) ch' /\
       length ch' = length ch /\ (forall j, j <> i -> j <> S i -> nth_error ch' j = nth_error ch j)).
-    { clear Run. intros Hrun E0. destruct (is_aborted (n_srv nd) hr) eqn:EA.
+    { intros Hrun E0. destruct (is_aborted (n_srv nd) hr) eqn:EA.
       - destruct (sstep nd (Server.OHandlerPoll k Server.SRun)) as [nd1 l0] eqn:ES. cbv zeta in E0. pinj E0.
         split; [eapply gd_ph_aborted; eassumption|].
         destruct (option_map hi_call (nth_error (n_hs nd) k)) as [[j|]|]; try apply Frame1.
@@ -1350,7 +1306,7 @@ Section Polls.
           split; [|apply Frame2]. eapply gd_ph_inner; try eassumption. apply (NW nx Ex).
         + destruct (sstep nd (Server.OHandlerPoll k st)) as [nd1 l0] eqn:ES. pinj E0.
           split; [|apply Frame1]. eapply gd_ph_leaf; eassumption. }
-    clear Run. destruct (Server.h_st hr) eqn:Est.
+    destruct (Server.h_st hr) eqn:Est.
     - apply Main; [reflexivity|exact E].
     - apply Main; [reflexivity|exact E].
     - destruct (sstep nd (Server.OHandlerPoll k Server.SRun)) as [nd1 l0] eqn:ES. pinj E.
@@ -1359,5 +1315,48 @@ Section Polls.
       split; [|apply Frame1]. eapply gd_ph_sending; try eassumption. eexists. right. exact Est.
     - pinj E. cbn. auto.
     - pinj E. cbn. auto.
+  Qed.
+
+  (* ---- the head caller polls call j ---- *)
+  Lemma length_set_over j l : length (set_over j l) = length l.
+  Proof. unfold set_over. destruct (nth_error l j); [apply ClientLemmas.set_nth_length|reflexivity]. Qed.
+
+  Lemma nth_set_over j l j' h :
+    nth_error (set_over j l) j' = Some h -> hc_over h = true ->
+    j' = j \/ (nth_error l j' = Some h).
+  Proof.
+    unfold set_over. destruct (nth_error l j) as [h0|] eqn:E; [|auto].
+    destruct (Nat.eq_dec j' j) as [->|Hne]; [auto|]. rewrite ClientLemmas.nth_error_set_nth_other by congruence. auto.
+  Qed.
+
+  Lemma good_set_over m ch j :
+    good m ch ->
+    (forall nd0, nth_error ch 0 = Some nd0 -> j < length (mo_calls m) -> ph_over (n_cli nd0) j = true) ->
+    good (mkmon (mo_now m) (set_over j (mo_calls m)) (mo_started m) (mo_ended m) (mo_tainted m)
+                (mo_wire m) (mo_c04 m) (mo_c18 m) (mo_c07 m) (mo_c18w m) (mo_fuel m)) ch.
+  Proof.
+    intros [A B [C1 C2 C3]] H. constructor; [exact A|exact B|]. constructor; cbn [mo_calls mo_started mo_ended].
+    - intros nd0 H0. rewrite length_set_over. apply C1, H0.
+    - intros nd0 j' h H0 Hj Ho. destruct (nth_set_over _ _ _ _ Hj Ho) as [->|Hold].
+      + apply H; [exact H0|]. rewrite <- (length_set_over j). eapply nth_error_lt, Hj.
+      + eapply C2; eassumption.
+    - exact C3.
+  Qed.
+
+  Lemma gd_poll_head m ch j ch' l :
+    good m ch -> nowrap_at ch 0 -> poll_head j ch = (ch', l) ->
+    good (fold_left mon_obs l m) ch' /\
+    length ch' = length ch /\ (forall i, i <> 0 -> nth_error ch' i = nth_error ch i).
+  Proof.
+    intros G NW E. unfold poll_head in E. destruct (nth_error ch 0) as [nd|] eqn:E0; [|pinj E; cbn; auto].
+    destruct (cstep nd (Client.PollCall j)) as [nd1 l1] eqn:ES. pinj E.
+    destruct (cstep_poll_call _ _ _ _ _ (gd_node _ _ G 0 nd E0) (NW nd E0) ES)
+      as (r & -> & Es & Ehs & _ & NO1 & L1 & M1 & P1 & Q1).
+    split; [|split; [apply length_set_node|intros i Hi; apply nth_set_node_other; congruence]].
+    assert (G1 : good m (set_node 0 nd1 ch)).
+    { eapply good_upd; [exact G|exact E0|exact NO1|split; [exact L1|exact M1]|apply srv_same_refl; assumption]. }
+    destruct r as [|o|]; cbn [flat_map app fold_left mon_obs]; try exact G1.
+    apply good_set_over; [exact G1|]. intros nd0 H0 _.
+    rewrite nth_set_node_same in H0 by (eapply nth_error_lt, E0). injection H0 as <-. eapply P1. reflexivity.
   Qed.
 End Polls.
